@@ -3,7 +3,7 @@
    any number of threads each running  Acquire; body; Release  at instruction (= source line) granularity, a
    session pool, and a re-entrant lock.  The bodies of the real sites are produced by the translator
    (Gen/Generated.v: site_dask, site_spw, site_sensor_get, pool ops). *)
-From Coq Require Import List Arith Bool ZArith.
+From Coq Require Import List Arith Bool ZArith String.
 From KV Require Import Base.Sx Gen.Generated.
 Import ListNotations.
 Close Scope Z_scope.
@@ -54,7 +54,7 @@ Fixpoint run_rest (fuel : nat) (l : list instr) (sh : shared) (lo : local) : res
       end
   end.
 Definition run_body (body : list instr) (sh : shared) : res (shared * local) :=
-  run_rest (length body) body sh lo0.
+  run_rest (List.length body) body sh lo0.
 
 (* ---------- threads ---------- *)
 (* a thread inside the critical section holds the instructions it still has to execute *)
@@ -124,26 +124,80 @@ Definition r_release (l : rlock) (t : nat) : option rlock :=
   | None => None
   end.
 
+(* nested use of the sensor-cache lock by ONE thread (SensorCache.get -> virtual sensor function -> cache.get /
+   cache[name] = ...): true = enter a `with self._lock:`, false = leave it.  kind = the lock kind found in
+   SensorCache.__init__ (Generated.sensor_lock_kind: 1 = threading.Lock(), 2 = threading.RLock()); a plain lock blocks
+   for ever (None) when its holder asks for it again *)
+Definition acquire_k (kind : Z) (l : rlock) (t : nat) : option rlock :=
+  if Z.eqb kind 2 then r_acquire l t
+  else match l with None => Some (Some (t, 1)) | Some _ => None end.
+Fixpoint run_nest (kind : Z) (l : rlock) (t : nat) (prog : list bool) : option rlock :=
+  match prog with
+  | [] => Some l
+  | true :: r => match acquire_k kind l t with Some l' => run_nest kind l' t r | None => None end
+  | false :: r => match r_release l t with Some l' => run_nest kind l' t r | None => None end
+  end.
+(* well bracketed from depth d: never leaves more often than it entered, ends at depth 0 *)
+Fixpoint bracketed (d : nat) (prog : list bool) : bool :=
+  match prog with
+  | [] => Nat.eqb d 0
+  | true :: r => bracketed (Datatypes.S d) r
+  | false :: r => match d with O => false | Datatypes.S d' => bracketed d' r end
+  end.
+Definition held_at (t d : nat) : rlock := match d with O => None | _ => Some (t, d) end.
+
 (* ---------- session pool (_Pool.get / put under a lock: each operation is one atomic step) ---------- *)
-Record pool := mkPool { p_free : list nat; p_next : nat; p_held : list (nat * nat) }.   (* held: (thread, item) *)
+(* The way get obtains an item and put returns it is TRANSLATED from the source (Generated.pool_get_empty_code,
+   pool_get_nonempty_code, pool_put_code): 0 factory(), 1 pop(), 2 pop(0), 3 [-1] (no removal), 4 [0] (no removal);
+   put: 0 append, 1 insert(0, .).  Obtaining an item from an empty list raises (p_err). *)
+Record pool := mkPool { p_free : list nat; p_next : nat; p_held : list (nat * nat); p_err : bool }.   (* held: (thread, item) *)
 Inductive pop := PGet (t : nat) | PPut (t : nat).
 Fixpoint rm_held (t x : nat) (l : list (nat * nat)) : list (nat * nat) :=
   match l with
   | [] => []
   | h :: r => if (Nat.eqb (fst h) t && Nat.eqb (snd h) x)%bool then r else h :: rm_held t x r
   end.
-Definition pool_step (p : pool) (o : pop) : pool :=
+Inductive took := TRaise | TNew | TItem (x : nat) (rest : list nat).
+Definition take_item (code : Z) (free : list nat) : took :=
+  match code with
+  | 0%Z => TNew
+  | 1%Z => match rev free with [] => TRaise | x :: r => TItem x (rev r) end
+  | 2%Z => match free with [] => TRaise | x :: r => TItem x r end
+  | 3%Z => match rev free with [] => TRaise | x :: _ => TItem x free end
+  | 4%Z => match free with [] => TRaise | x :: _ => TItem x free end
+  | _ => TRaise
+  end.
+Definition give_back (code : Z) (free : list nat) (x : nat) : list nat :=
+  match code with 0%Z => free ++ [x] | _ => x :: free end.
+Definition pool_step_c (ce cn cp : Z) (p : pool) (o : pop) : pool :=
   match o with
-  | PGet t => match rev (p_free p) with
-              | [] => mkPool [] (Datatypes.S (p_next p)) ((t, p_next p) :: p_held p)          (* factory() *)
-              | x :: r => mkPool (rev r) (p_next p) ((t, x) :: p_held p)                        (* pool.pop() *)
+  | PGet t => match take_item (match p_free p with [] => ce | _ => cn end) (p_free p) with
+              | TRaise => mkPool (p_free p) (p_next p) (p_held p) true
+              | TNew => mkPool (p_free p) (Datatypes.S (p_next p)) ((t, p_next p) :: p_held p) (p_err p)
+              | TItem x r => mkPool r (p_next p) ((t, x) :: p_held p) (p_err p)
               end
   | PPut t => match find (fun h => Nat.eqb (fst h) t) (p_held p) with
-              | Some (_, x) => mkPool (p_free p ++ [x]) (p_next p) (rm_held t x (p_held p))
+              | Some (_, x) => mkPool (give_back cp (p_free p) x) (p_next p) (rm_held t x (p_held p)) (p_err p)
               | None => p          (* a thread can only return what it borrowed *)
               end
   end.
-Definition pool_init : pool := mkPool [] 0 [].
+Definition pool_step : pool -> pop -> pool := pool_step_c pool_get_empty_code pool_get_nonempty_code pool_put_code.
+Definition pool_init : pool := mkPool [] 0 [] false.
+Definition pool_codes_safe (ce cn cp : Z) : bool :=
+  (Z.eqb ce 0 && (Z.eqb cn 0 || Z.eqb cn 1 || Z.eqb cn 2) && (Z.eqb cp 0 || Z.eqb cp 1))%bool.
+(* `with pool() as item:` = get, the caller's block, put -- in this order *)
+Definition pool_call_ok : bool :=
+  match pool_call_code with [0%Z; 1%Z; 2%Z] => true | _ => false end.
+
+(* methods that touch a guarded field outside its lock: only construction may (the object is not shared yet);
+   for SensorCache also add_aliases (run at construction), __iter__ and __len__ (reads of the dict object itself;
+   not among the first-time accesses the property lists -- see design.d/C20.md, not-verified list) *)
+Definition only_init (l : list string) : bool :=
+  match l with ["__init__"%string] => true | _ => false end.
+Definition sensor_unlocked_allowed : list string :=
+  ["__init__"%string; "add_aliases"%string; "__iter__"%string; "__len__"%string].
+Definition all_allowed (l : list string) : bool :=
+  forallb (fun m => existsb (String.eqb m) sensor_unlocked_allowed) l.
 
 (* ---------- wire: run a schedule on a concrete instance (S = V = Z, f = successor) ---------- *)
 (* instruction codes shared with the translator (harness/vh/items/c20.py) *)
@@ -161,7 +215,7 @@ Definition zbody (x : sx) : list instr :=
   decode_body (map (fun i => match i with L [I c; I a] => (c, a) | _ => (5%Z, 0%Z) end) (to_list x)).
 Definition of_tstate (s : tstate Z Z) : sx :=
   match s with
-  | Idle => L [I 0] | InCS r _ => L [I 1; I (Z.of_nat (length r))]
+  | Idle => L [I 0] | InCS r _ => L [I 1; I (Z.of_nat (List.length r))]
   | Done lo => L [I 2; match lres lo with Some v => I v | None => I (-1) end] | Failed => L [I 3]
   end.
 (* (body nthreads schedule locked?) -> (per-thread final states, ncomp) *)
@@ -174,3 +228,27 @@ Definition wire_20 (x : sx) : sx :=
       L [L (map (fun t => of_tstate (c_th c t)) (seq 0 (Z.to_nat n))); I (Z.of_nat (ncomp (c_sh c)))]
   | _ => sx_err
   end.
+
+(* the translated bodies, for the harness (it runs the SAME bodies the theorems are about) *)
+Definition of_code (l : list (Z * Z)) : sx := L (map (fun p => L [I (fst p); I (snd p)]) l).
+Definition wire_201 (x : sx) : sx := L [of_code site_dask_code; of_code site_spw_code; of_code site_sensor_get_code].
+
+(* a get/put history ((kind thread) ...) -> per operation: the item obtained / returned (-1 none, -2 raised), then the
+   free list and the error flag *)
+Definition pool_trace (ops : list pop) : list Z * pool :=
+  fold_left (fun acc o =>
+     let p := snd acc in
+     let p' := pool_step p o in
+     let out := match o with
+                | PGet t => if (negb (p_err p) && p_err p')%bool then (-2)%Z
+                            else match p_held p' with (_, x) :: _ => Z.of_nat x | [] => (-1)%Z end
+                | PPut t => match find (fun h => Nat.eqb (fst h) t) (p_held p) with
+                            | Some (_, x) => Z.of_nat x | None => (-1)%Z end
+                end in
+     (fst acc ++ [out], p')) ops ([], pool_init).
+Definition wire_202 (x : sx) : sx :=
+  let ops := map (fun o => match o with L [I 0; I t] => PGet (Z.to_nat t) | L [_; I t] => PPut (Z.to_nat t) | _ => PPut O end)
+                 (to_list x) in
+  let r := pool_trace ops in
+  L [of_Zs (fst r); of_nats (p_free (snd r)); of_bool (p_err (snd r));
+     of_nats (map snd (p_held (snd r)))].
